@@ -624,7 +624,10 @@ class Oracle:
             if not has_ns(conn, y.namespace):
                 self.count('oracle:symmetry_skipped_foreign_namespace')
                 continue
-            if y.namespace.lower() != req['ns'].lower() and not self._shadowed(req['ns'], y.namespace, x, y):
+            if self.loaded and y.namespace.lower() != req['ns'].lower() and \
+                    not self._shadowed(req['ns'], y.namespace, x, y):
+                # only repositories into which instances were loaded with add_cimobjects can legitimately hold a
+                # cross-namespace association in one namespace only; CreateInstance must write both copies
                 self.count('oracle:symmetry_skipped_one_sided')
                 continue
             r2 = {'op': 'AN', 'lvl': 'i', 'ns': y.namespace, '_path': y, 'src': src_uri(y, y.namespace),
@@ -824,6 +827,7 @@ def run_repo(spec, only_req=None):
         reals.append(o)
         return o
     orc = Oracle(conn, spec, keys, violate, count, do)
+    orc.loaded = any(k.startswith('loaded:') for k in notes)
     thorough = spec.get('thorough', False)
     if only_req is not None:
         groups = [only_req]
